@@ -116,6 +116,11 @@ impl Crypto {
         let duration = Duration::from_secs_f32(SPEED_TEST_TIME);
         let mut speeds = Vec::new();
         for algo in allowed_algos {
+            #[cfg(dswd_vpncloud_verif)]
+            if let Some(speed) = verif_speed_override(algo) {
+                algos.algorithm_speeds.push((algo, speed));
+                continue;
+            }
             let speed = test_speed(algo, &duration);
             algos.algorithm_speeds.push((algo, speed as f32));
             speeds.push((format!("{:?}", algo), speed as f32));
@@ -201,6 +206,54 @@ impl Crypto {
             self.trusted_keys.clone(),
             self.algorithms.clone(),
         )
+    }
+}
+
+#[cfg(dswd_vpncloud_verif)]
+thread_local! {
+    pub static VERIF_SPEEDS: std::cell::RefCell<Option<[f32; 3]>> = std::cell::RefCell::new(None);
+}
+
+#[cfg(dswd_vpncloud_verif)]
+pub struct VERIF_SEAL_LOG_ACCESS;
+
+#[cfg(dswd_vpncloud_verif)]
+pub fn verif_seal_log_start() {
+    super::core::VERIF_SEAL_LOG.with(|l| *l.borrow_mut() = Some(Vec::new()))
+}
+
+#[cfg(dswd_vpncloud_verif)]
+pub fn verif_seal_log_take() -> Vec<([u8; 16], [u8; 12])> {
+    super::core::VERIF_SEAL_LOG.with(|l| l.borrow_mut().replace(Vec::new()).unwrap_or_default())
+}
+
+#[cfg(dswd_vpncloud_verif)]
+fn verif_speed_override(algo: &'static Algorithm) -> Option<f32> {
+    VERIF_SPEEDS.with(|s| {
+        s.borrow().map(|v| {
+            if algo == &aead::AES_128_GCM {
+                v[0]
+            } else if algo == &aead::AES_256_GCM {
+                v[1]
+            } else {
+                v[2]
+            }
+        })
+    })
+}
+
+#[cfg(dswd_vpncloud_verif)]
+impl<P: Payload> PeerCrypto<P> {
+    pub fn verif_init(&self) -> Option<&InitState<P>> {
+        self.init.as_ref()
+    }
+
+    pub fn verif_core(&mut self) -> Option<&mut CryptoCore> {
+        self.core.as_mut()
+    }
+
+    pub fn verif_rotation(&self) -> Option<&RotationState> {
+        self.rotation.as_ref()
     }
 }
 
